@@ -34,7 +34,7 @@ def prop_c03_sim(spec, rec):
 
 
 def c03_subchecks(tier):
-    return [Given("sim_bounds", sc.scenarios(), prop_c03_sim, quick=250, thorough=20000, floors={"battery_throttled": 0.3, "noise": 0.2})]
+    return [Given("sim_bounds", sc.scenarios(), prop_c03_sim, quick=250, thorough=20000, floors={"battery_throttled": 0.25, "noise": 0.2})]
 
 
 def replay_c03(subcheck, spec, rec):
